@@ -282,6 +282,12 @@ def main(argv=None):
             counters["refused_singular_poisson_factorisation"] = counters.get("refused_singular_poisson_factorisation", 0) + 1
             classes["refused"] = classes.get("refused", 0) + 1
             continue
+        if res.get("status") == "harness_error" and ("Solver failed to converge" in str(res.get("error")) or "Screening calculation failed to converge" in str(res.get("error"))):
+            # a PREPARATORY run of the workload (seed, first part, reference) gave up inside the solver: the workload could not be
+            # set up - a non-result class, counted; the checks that judge non-convergence (C12, C13, C17) do so before this point
+            counters["workload_runs_ending_in_nonconvergence"] = counters.get("workload_runs_ending_in_nonconvergence", 0) + 1
+            classes["nonconvergence"] = classes.get("nonconvergence", 0) + 1
+            continue
         if res.get("status") == "harness_error":
             inconclusive.append({"case": spec["id"], "reason": "harness_error: ..." + str(res.get("error"))[-700:].replace("\n", " | ")})
             continue
